@@ -29,8 +29,7 @@ def run(rep, prog, tier):
         args, kw = at[2], dict(at[3])
         net = args[0] if args else kw.get('network')
         want_net = tkey(spec(ev, "transform_circuit(self.circuit, 0, 1e-3)", {'self': A('self'), 'transform_circuit': ev.ref_of(prog.resolve(prog.mod('Circuit.circuit'), 'transform_circuit'))}, m))
-        ok_net = net is not None and (net == want_net or (repr(net).count("'transform_circuit'") == 1 and "'circuit'" in repr(net) and 'Fraction(0, 1)' not in repr(net).split("'circuit'")[1][:40] or net == want_net))
-        ok_net = net == want_net or _net_at_dc(net)
+        ok_net = net == want_net
         for nm, kind, key in (('c_values', 'capacitor', 'C'), ('l_values', 'inductance', 'L')):
             got = kw.get(nm)
             comps = ev.getattr(ev.getattr(A('self'), 'circuit', m, 0), 'components', m, 0)
